@@ -268,8 +268,8 @@ func c01RunScopeJobs(ctx *Ctx, jobs []string, tag string) (answers []string, stu
 					found++
 				}
 				mu.Unlock()
-				if ended2 == "" {
-					return // did not die again: load-dependent? all answered now
+				if ended2 == "" || len(ans2) >= len(idx) {
+					return // did not die again before answering everything
 				}
 				idx = idx[len(ans2)+1:]
 				if found >= 1 {
